@@ -56,6 +56,9 @@ impl SimAgent {
     }
 }
 
+/// The value of the command the agent sends from `on_stop` (knob `send_on_stop`).
+pub const ON_STOP_VALUE: i32 = 990_001;
+
 pub const VALUE_LANES: [&str; 2] = ["val", "tval"];
 pub const MAP_LANES: [&str; 4] = ["map", "bmap", "tmap", "smap"];
 pub const PERSISTENT_ITEMS: [&str; 6] = ["val", "map", "bmap", "smap", "vstore", "mstore"];
@@ -204,6 +207,9 @@ pub struct SimLifecycle {
     /// A value that makes the lifecycle handler of a value lane fail (after it has been recorded): the lane keeps
     /// the value and it must still be published.
     pub fail_on_multiple_of: i32,
+    /// `on_stop` sends one (non-overwritable) ad hoc command to lane `t2` of `/target`: a notification at shutdown,
+    /// which must be forwarded like any other command.
+    pub send_on_stop: bool,
 }
 
 /// A handler that fails with an error the agent treats as fatal.
@@ -385,7 +391,19 @@ impl SimLifecycle {
     #[on_stop]
     pub fn on_stop(&self, context: Ctx) -> impl EventHandler<SimAgent> {
         let me = self.clone();
-        context.effect(move || me.rec(TruthEv::Stop))
+        let me2 = self.clone();
+        let send: Option<Boxed> = if self.send_on_stop {
+            let host = if self.remote_host { Some("ws://remote:9001") } else { None };
+            let addr = swimos_api::address::Address::text(host, "/target", "t2");
+            Some(
+                swimos_agent::event_handler::SendCommand::new(addr, ON_STOP_VALUE, false)
+                    .followed_by(context.effect(move || me2.rec(TruthEv::Sent { target: 2, overwrite: false, value: ON_STOP_VALUE })))
+                    .boxed_local(),
+            )
+        } else {
+            None
+        };
+        context.effect(move || me.rec(TruthEv::Stop)).followed_by(send.discard())
     }
 
     #[on_event(val_main)]
